@@ -967,8 +967,17 @@ impl<C: BgpConfig + Send> Session<C> {
                     return Err(Error { msg: "stop processing" })
                 }
 
-                let received_addpaths = open_msg.addpath_families_vec()
-                    .map_err(|_| Error { msg: "failed to parse addpath caps" })?;
+                let Ok(received_addpaths) = open_msg.addpath_families_vec()
+                else {
+                    // An OPEN with errors is Event 22 (BGPOpenMsgErr):
+                    // NOTIFICATION, release the connection, go Idle.
+                    warn!("malformed ADD-PATH capability in OPEN");
+                    self.disconnect(DisconnectReason::FsmViolation(Some(
+                                OpenMessageSubcode::Unspecific.into()
+                                )));
+                    self.set_state(State::Idle);
+                    return Err(Error { msg: "failed to parse addpath caps" })
+                };
                 // Our own OPEN advertises SendReceive for every family in
                 // config.addpath() (see send_open), so the negotiated
                 // direction is the merge of that with what the peer sent.
@@ -1274,8 +1283,17 @@ impl<C: BgpConfig + Send> Session<C> {
                     return Err(Error { msg: "stop processing" })
                 }
 
-                let received_addpaths = open_msg.addpath_families_vec()
-                    .map_err(|_| Error { msg: "failed to parse addpath caps" })?;
+                let Ok(received_addpaths) = open_msg.addpath_families_vec()
+                else {
+                    // An OPEN with errors is Event 22 (BGPOpenMsgErr):
+                    // NOTIFICATION, release the connection, go Idle.
+                    warn!("malformed ADD-PATH capability in OPEN");
+                    self.disconnect(DisconnectReason::FsmViolation(Some(
+                                OpenMessageSubcode::Unspecific.into()
+                                )));
+                    self.set_state(State::Idle);
+                    return Err(Error { msg: "failed to parse addpath caps" })
+                };
                 // Our own OPEN advertises SendReceive for every family in
                 // config.addpath() (see send_open), so the negotiated
                 // direction is the merge of that with what the peer sent.
